@@ -5,7 +5,7 @@
    equality: numbers numerically (an int z is z*2^0, a float is m*2^e), strings exactly, 1 = 1.0 <> '1';
    NULL = NULL is what the code does and is recorded here, not judged. *)
 From Coq Require Import Lia.
-From SV Require Import Model.Join Proofs.JoinKeyProofs Proofs.JoinProofs.
+From SV Require Import Model.Join Spec.JoinSpec Proofs.JoinKeyProofs Proofs.JoinProofs.
 Import JoinM.
 Open Scope Z_scope.
 
@@ -268,6 +268,35 @@ Theorem C16_concurrent_writers : forall c (ts : tables bytes) name keys k a b op
 Proof. exact concurrent_writers. Qed.
 Print Assumptions C16_concurrent_writers.
 
+(* ---- WHERE over stream columns of a JOIN query; rows waiting in an open window ---- *)
+(* FROM stream s JOIN ...: on the enriched row of every kept row "s.col" is the stream row's column (the FROM
+   alias exists on the enriched row only: a WHERE evaluated on the raw row reads NULL there and drops rows
+   that must be kept), and so is the bare "col" unless it is the name of an alias; the tables play no part *)
+Theorem C16_where_stream_columns : forall c (ts : tables bytes) d w col,
+  c_joins c <> [] -> enrich bytes bytes_eqb encodeKey c ts d = ERow w ->
+  forallb (fun j => negb (bytes_eqb (j_alias j) col)) (c_joins c) = true ->
+  (forall s, c_src_alias c = Some s ->
+     forallb (fun j => negb (bytes_eqb (j_alias j) s)) (c_joins c) = true ->
+     wpath w (PQual s col) = getnil d col) /\
+  (match c_src_alias c with Some s => bytes_eqb s col = false | None => True end ->
+     wpath w (PCol col) = getnil d col).
+Proof.
+  intros c ts d w col Hj H Hn. split.
+  - intros s Hs Hns. exact (where_from_alias_column _ _ _ c ts d w s col Hj Hs Hns H).
+  - intros Hs. exact (where_bare_column _ _ _ c ts d w col Hj Hs Hn H).
+Qed.
+Print Assumptions C16_where_stream_columns.
+
+(* a row is enriched when it is processed and then waits in the open window: the first n rows of the window
+   (group key, values to aggregate: JoinS.window_rows) are fixed by the history up to their processing --
+   no Upsert, Delete, registration or row that comes later changes what the window reports for them *)
+Theorem C16_window_contents_fixed : forall a g v s c hs1 hs2 (ts : tables bytes) n,
+  (n <= length (JoinS.window_rows a g v s (hrun bytes bytes_eqb encodeKey c ts hs1)))%nat ->
+  firstn n (JoinS.window_rows a g v s (hrun bytes bytes_eqb encodeKey c ts (hs1 ++ hs2))) =
+  firstn n (JoinS.window_rows a g v s (hrun bytes bytes_eqb encodeKey c ts hs1)).
+Proof. exact window_contents_fixed. Qed.
+Print Assumptions C16_window_contents_fixed.
+
 (* ---- non-vacuity ---- *)
 (* 1 = 1.0 (= 4*2^-2), 1 <> '1', -0.0 = 0, 2^53 <> 2^53+1 (int/int and float/int), 1.5 = 3*2^-1 *)
 Example C16_key_examples :
@@ -324,3 +353,19 @@ Example C16_oriented_example :
   parse_code q = {| c_src_alias := None;
                     c_joins := [{| j_table := [116]%N; j_left := false; j_alias := [116]%N; j_pairs := [([107]%N, [97]%N)] |}] |}.
 Proof. split; reflexivity. Qed.
+
+(* the reviewer's shape of history: row A (k = 1) is processed while the table row says red; the row is deleted
+   and created again as blue; row B (k = 1) is processed: a CountingWindow(2) grouped by m.tag reports one row
+   under red and one under blue *)
+Example C16_window_example :
+  let t := [116]%N in let a := [97]%N in let v := [118]%N in let k := [107]%N in let m := [109]%N in
+  let tag := [103]%N in let sq := [115]%N in let red := KStr [114]%N in let blue := KStr [98]%N in
+  let c := {| c_src_alias := None;
+              c_joins := [{| j_table := t; j_left := false; j_alias := m; j_pairs := [(k, a)] |}] |} in
+  JoinS.windows_expected 2 (JoinS.window_rows m (Some tag) v sq
+    (model_hrun c [(t, [a], [[(a, KInt 1); (tag, red); (v, KInt 7)]])]
+       [HOp (OEmit [(k, KInt 1); (sq, KInt 1)]); HOp (ODelete t (DSingle (KInt 1)));
+        HOp (OUpsert t [(a, KInt 1); (tag, blue); (v, KInt 9)]); HOp (OEmit [(k, KInt 1); (sq, KInt 2)])])) =
+  [[{| JoinS.wa_g := red; JoinS.wa_c := 1; JoinS.wa_sum := Some 7; JoinS.wa_max := Some 7; JoinS.wa_seq := Some 1 |};
+    {| JoinS.wa_g := blue; JoinS.wa_c := 1; JoinS.wa_sum := Some 9; JoinS.wa_max := Some 9; JoinS.wa_seq := Some 2 |}]].
+Proof. reflexivity. Qed.
